@@ -47,6 +47,7 @@ type Result struct {
 	Dir      string            // scratch directory holding everything
 	Bin      string            // world.test
 	RaceBin  string            // world.race.test ("" if not built)
+	TrimBin  string            // world.trim.test: the same binary built with -trimpath
 	Sources  map[string][]byte // harness test sources by nominal path (copied into world roots)
 	Rewrites int
 }
@@ -175,6 +176,9 @@ func Build(repo, verifDir, scratch string, race bool) (*Result, error) {
 		if race {
 			args = append(args, "-race")
 		}
+		if strings.HasSuffix(out, ".trim.test") {
+			args = append(args, "-trimpath")
+		}
 		args = append(args, "./snaps")
 		cmd := exec.Command("go", args...)
 		cmd.Dir = repo
@@ -192,6 +196,13 @@ func Build(repo, verifDir, scratch string, race bool) (*Result, error) {
 	res.Bin = filepath.Join(scratch, "world.test")
 	if err := compile(res.Bin, false); err != nil {
 		return nil, err
+	}
+	if os.Getenv("VERIF_TRIMPATH") != "" {
+		// experiments only (DESIGN.md 13.11): no registered check draws -trimpath lifetimes
+		res.TrimBin = filepath.Join(scratch, "world.trim.test")
+		if err := compile(res.TrimBin, false); err != nil {
+			return nil, err
+		}
 	}
 	if race {
 		res.RaceBin = filepath.Join(scratch, "world.race.test")
